@@ -17,7 +17,7 @@ NCPU = os.cpu_count() or 8
 JOBS = max(2, min(14, NCPU - 2))
 
 sys.path.insert(0, os.path.join(ROOT, "tools"))
-from props import PROPS, OP_OWNERS, REASON_OWNERS, FAILURE_STATED  # noqa: E402
+from props import PROPS, OP_OWNERS, REASON_OWNERS, FAILURE_STATED  # noqa: F401  # noqa: E402
 
 
 class ToolError(Exception):
